@@ -164,15 +164,18 @@ Qed.
    on any input is held back *)
 Theorem join_room_nothing_held s :
   reachable c s -> cancelled s = false -> quiescent c s -> has_room (outs s 0) = true ->
-  forall w, w < n -> (served_done s w \/ served_parked s w) /\ cbuf (ins s w) = [] /\ wtaken (ws s w) = sent s w.
+  forall w, w < n ->
+    (wc (ws s w) = WDone \/
+     (wc (ws s w) = WRecv /\ cclosed (ins s w) = false /\ forall x, step c s (ESent w x) <> None)) /\
+    cbuf (ins s w) = [] /\ wtaken (ws s w) = sent s w.
 Proof.
   intros Hr Hcn Hq Hro w Hw.
   assert (Hb : forall A : Prop, A -> cbuf (ins s w) = [] -> A /\ cbuf (ins s w) = [] /\ wtaken (ws s w) = sent s w).
   { intros A HA Hb. split; [exact HA|]. split; [exact Hb|].
     rewrite (join_taken c (fun _ => eq_refl) s w Hr), Hb. simpl. now rewrite app_nil_r. }
   destruct (join_every_input_served s Hr Hcn Hq w Hw) as [Hd|[Hp|(eof & x & rest & _ & Hf & _)]].
-  - apply Hb; [left; exact Hd|apply Hd].
-  - apply Hb; [right; exact Hp|apply Hp].
+  - apply Hb; [left; apply Hd|apply Hd].
+  - destruct Hp as (A & B & C & D). apply Hb; [right; auto|exact B].
   - congruence.
 Qed.
 
